@@ -305,3 +305,13 @@ def r5(ctx):
         if okc:
             yield PASS("C05-R5", "ctor/" + cp, "each list initialised from the like-named parameter", [loc(f.j["span"])])
     ctx.count(n)
+
+
+import c11  # noqa: E402
+
+
+@M.rule("C05-R6", "every header of the request is visible to the presence / prefix tests (shared with C11-R3)")
+def r6(ctx):
+    for r in c11.r3(ctx):
+        r.rule = "C05-R6"
+        yield r
